@@ -78,7 +78,46 @@ def cases(tier, seed):
         if ffl != 'default' and (ysf != 0.5 or bf != 0.03):
             continue
         out.append(dict(kind='b2d', curved=curved, ysf=ysf, bf=bf, fflags=ffl, seed=seed))
+    # several connections in one assembly, two of them on the same line of the same panel with different partner laminates
+    for kind, order in itertools.product(['SSycte', 'SSxcte', 'BFycte', 'BFxcte'], ['abc', 'acb', 'cab']):
+        out.append(dict(kind='multi', conn=kind, order=order, seed=seed))
     return out
+
+
+def check_multi(case):
+    """k0_conn of an assembly with two connections == sum of the matrices of assemblies with one connection each (same panels, same order);
+    independent of the order of the connection list."""
+    from compmech.panel.assembly import PanelAssembly
+    seed = case['seed']
+    kind = case['conn']
+
+    def build(which, reverse=False):
+        y = kind.endswith('ycte')
+        pa = pan.make_panel(dict(model='plate', a=0.6, b=0.4, lam='cross_sym', m=4, n=4, fbase='FFFF', seed=seed))
+        dims = dict(a=0.6, b=0.07) if y else dict(a=0.07, b=0.4)
+        if kind.startswith('SS'):
+            dims = dict(a=0.6, b=0.25) if y else dict(a=0.35, b=0.4)
+        pb = pan.make_panel(dict(model='plate', lam='general', m=3, n=4, fbase='FFFF', seed=seed + 1, **dims))
+        pc = pan.make_panel(dict(model='plate', lam='uni0', m=4, n=3, fbase='FFFF', seed=seed + 2, **dims))
+        pos1 = 0.5 * (pa.b if y else pa.a)
+        k1, k2 = ('ycte1', 'ycte2') if y else ('xcte1', 'xcte2')
+        cb = {'p1': pa, 'p2': pb, 'func': kind, k1: pos1, k2: 0.}
+        cc_ = {'p1': pa, 'p2': pc, 'func': kind, k1: pos1, k2: 0.}
+        conn = [c for c, use in ((cb, 'b' in which), (cc_, 'c' in which)) if use]
+        if reverse:
+            conn = conn[::-1]
+        ps = dict(a=pa, b=pb, c=pc)
+        assy = PanelAssembly([ps[ch] for ch in case['order']], conn)
+        return pan.dense(assy.get_k0_conn())
+    Kbc, Kcb, Kb, Kc = build('bc'), build('bc', reverse=True), build('b'), build('c')
+    fails = []
+    sc = np.abs(Kb + Kc).max()
+    if np.abs(Kbc - (Kb + Kc)).max() > 1e-12 * sc:
+        fails.append(fail('connection matrix of two connections on the same line of one panel is not the sum of the two connection matrices', sig=None,
+                          case=case, rel=float(np.abs(Kbc - (Kb + Kc)).max() / sc)))
+    if np.abs(Kbc - Kcb).max() > 1e-12 * sc:
+        fails.append(fail('connection matrix depends on the order of the connection list', sig=None, case=case, rel=float(np.abs(Kbc - Kcb).max() / sc)))
+    return dict(fails=fails, execs=4, transitions=4, nontrivial=1)
 
 
 def check_conn(case):
@@ -332,4 +371,4 @@ def check_b2d(case):
 
 
 def check_case(case):
-    return dict(conn=check_conn, ktkr=check_ktkr, tstiff=check_tstiff, b2d=check_b2d)[case['kind']](case)
+    return dict(conn=check_conn, ktkr=check_ktkr, tstiff=check_tstiff, b2d=check_b2d, multi=check_multi)[case['kind']](case)
